@@ -26,10 +26,10 @@ OS_REWRITE_GLOBS = [
 # (file, regex, replacement, extra import) — range-expression wraps for map-order enumeration
 # and the DNS seam. Applied when the pattern is present; reported when it is not.
 HOOK_REWRITES = [
-    ("pkg/goDB/conditions/tokenize.go", r"range regexGrammarConversionMap\b",
-     "range verifhook.Ordered(\"tokenize\", regexGrammarConversionMap)", MODULE + "/pkg/verifshim/verifhook"),
-    ("cmd/goProbe/config/config.go", r"range m\.regexpMatchers\b",
-     "range verifhook.Ordered(\"matchers\", m.regexpMatchers)", MODULE + "/pkg/verifshim/verifhook"),
+    ("pkg/goDB/conditions/tokenize.go", r"range regexGrammarConversionMap \{",
+     "range verifhook.Ordered(\"tokenize\", regexGrammarConversionMap) {", MODULE + "/pkg/verifshim/verifhook"),
+    ("cmd/goProbe/config/config.go", r"range m\.regexpMatchers \{",
+     "range verifhook.Ordered(\"matchers\", m.regexpMatchers) {", MODULE + "/pkg/verifshim/verifhook"),
     ("pkg/goDB/conditions/node/resolve.go", r"\bnet\.LookupHost\(",
      "verifhook.LookupHost(", MODULE + "/pkg/verifshim/verifhook"),
 ]
@@ -240,6 +240,21 @@ class Pool:
                 proc.kill()
 
 
+def crash_site(stderr):
+    """First repository frame after the panic / fatal error line of a Go crash dump."""
+    lines = stderr.splitlines()
+    start = 0
+    for i, l in enumerate(lines):
+        if l.startswith("panic:") or l.startswith("fatal error:"):
+            start = i
+    for l in lines[start:]:
+        l = l.strip()
+        if ("els0r/goProbe" in l or "fako1024" in l) and "(" in l and not l.startswith("/"):
+            fn = l[:l.rfind("(")]
+            return fn[fn.rfind("/") + 1:]
+    return "unknown"
+
+
 def load_known():
     p = os.path.join(VERIF, "known_findings.json")
     if not os.path.exists(p):
@@ -388,13 +403,25 @@ def run_built(args, seed, bins, missing_hooks, ovjson, pcfg, t0):
                 else:
                     violations.append((key, r.get("bound_target", 0), v))
         for c in pool.crashes:
+            if inf.get("CrashSig"):
+                site = crash_site(c["stderr"])
+                v = {"case": c["case"], "signature": inf["CrashSig"] + ":" + site, "count": 1, "choices": [], "labels": [],
+                     "message": "the worker process died while exploring case %d (rc=%s): %s" % (c["case"], c["rc"], c["stderr"][-2500:]),
+                     "log": c["stderr"][-6000:].splitlines()}
+                k = match_known(known, prop, v["signature"])
+                if k is not None:
+                    e = known_hits.setdefault(k["signature"], {"k": k, "count": 0})
+                    e["count"] += 1
+                else:
+                    violations.append((key, inf["Bound"], v))
+                continue
             tool_errors.append("%s: worker died on case %d (rc=%s): %s" % (key, c["case"], c["rc"], c["stderr"][-1500:]))
         tool_errors.extend(pool.errors)
         samples = []
         for r in res:
             for s in r.get("samples") or []:
                 if len(samples) < 4:
-                    samples.append({"scenario": key, "case": s["case"], "choices": s["choices"], "steps": s["steps"][:60]})
+                    samples.append({"scenario": key, "case": s["case"], "choices": s["choices"], "steps": (s.get("steps") or [])[:60]})
         agg["samples"] = samples
         per_scen.append((inf, agg))
         log("  %-14s cases=%d exec=%d states=%d outcomes=%d nontrivial=%d bound=%d/%d capped=%d viol=%d  %.1fs" % (
